@@ -48,6 +48,16 @@ DEFS = {
                   '<xsl:copy-of select="$v"/></o></xsl:template><xsl:template name="t"><xsl:param name="w"/><xsl:copy-of select="$w"/></xsl:template></xsl:stylesheet>' % X,
     'S_rtf2': '<xsl:stylesheet version="1.0" %s><xsl:template match="/"><o><xsl:variable name="v">t<a><xsl:call-template name="t"><xsl:with-param name="w"><b/>u</xsl:with-param></xsl:call-template></a></xsl:variable>'
               '<xsl:copy-of select="$v"/>|<xsl:value-of select="string-length($v)"/></o></xsl:template><xsl:template name="t"><xsl:param name="w"/><xsl:copy-of select="$w"/></xsl:template></xsl:stylesheet>' % X,
+    # aborted while the content of xsl:attribute / xsl:comment / xsl:processing-instruction is being instantiated (a mode in which only
+    # text may be copied), by a terminating message and by a run-time error; S_copy then copies elements and attributes
+    'S_attrterm': '<xsl:stylesheet version="1.0" %s><xsl:template match="/"><o><xsl:for-each select="//i"><e><xsl:attribute name="a"><xsl:value-of select="@n"/>'
+                  '<xsl:if test="@n=\'c\'"><xsl:message terminate="yes">stop inside an attribute</xsl:message></xsl:if></xsl:attribute></e></xsl:for-each></o></xsl:template></xsl:stylesheet>' % X,
+    'S_commerr': '<xsl:stylesheet version="1.0" %s><xsl:template match="/"><o><xsl:processing-instruction name="p">d</xsl:processing-instruction><xsl:for-each select="//i"><xsl:comment>c'
+                 '<xsl:value-of select="key(\'nokey\', @g)"/></xsl:comment></xsl:for-each></o></xsl:template></xsl:stylesheet>' % X,
+    'S_piterm': '<xsl:stylesheet version="1.0" %s><xsl:template match="/"><o><xsl:processing-instruction name="p">d<xsl:message terminate="yes">stop inside a processing instruction</xsl:message>'
+                '</xsl:processing-instruction></o></xsl:template></xsl:stylesheet>' % X,
+    'S_copy': '<xsl:stylesheet version="1.0" %s><xsl:template match="/"><o><xsl:copy-of select="//i[1]"/><xsl:for-each select="//i"><xsl:copy><xsl:copy-of select="@n"/><xsl:value-of select="@g"/></xsl:copy>'
+              '</xsl:for-each><xsl:variable name="v"><a b="1"><b/></a></xsl:variable><xsl:copy-of select="$v"/></o></xsl:template></xsl:stylesheet>' % X,
     'S_comperr': '<xsl:stylesheet version="1.0" %s><xsl:template match="/"><xsl:nosuch/><xsl:value-of select="1 +"/></xsl:template></xsl:stylesheet>' % X,
     'D1': '<r><i n="b" g="1" u="">1</i><i n="a" g="2" u="é">2</i><i n="c" g="1" u="">3</i></r>',
     'D2': '<r><i n="z" g="2" u=""><i n="y" g="1" u="">4</i></i></r>',
@@ -61,11 +71,12 @@ OPS = [
     'parse:D1:st', 'parse:D2:xw', 'parse:D_bad:st',
     'trS:S_ok:D1', 'trS:S_term:D1', 'trS:S_rterr:D1', 'trS:S_badname:D1', 'trS:S_enc:D2', 'trS:S_doc:D1', 'trS:S_html:D2', 'trS:S_ok:D_bad', 'trS:S_comperr:D1',
     'trS:S_sorterr:D3', 'trS:S_sorterrn:D3', 'trS:S_rtfterm:D1', 'trS:S_rtfterm2:D1',
+    'trS:S_attrterm:D1', 'trS:S_commerr:D1', 'trS:S_piterm:D1',
     'trH:0:0', 'trH:0:1', 'trM:S_term:0',
     "param:p='1'", 'param:p=2+3', "param:q=//i[1]/@n", 'clear',
     'delS:0', 'delD:0', 'indent:2', 'enc:ISO-8859-1', 'inst', 'uninst',
 ]
-PROBES = ['trS:S_ok:D1', 'trS:S_ok:D2', 'trH:0:0', 'trH:0:1', 'trH:0:0', 'trS:S_html:D1', 'trS:S_term:D2', 'trS:S_text:D1', 'trM:S_ok:0', 'trS:S_sort2:D1', 'trS:S_sort2:D2', 'trS:S_rtf2:D1']
+PROBES = ['trS:S_ok:D1', 'trS:S_ok:D2', 'trH:0:0', 'trH:0:1', 'trH:0:0', 'trS:S_html:D1', 'trS:S_term:D2', 'trS:S_text:D1', 'trM:S_ok:0', 'trS:S_sort2:D1', 'trS:S_sort2:D2', 'trS:S_rtf2:D1', 'trS:S_copy:D1', 'trS:S_copy:D2']
 COMPILES_OK = {'S_ok': True, 'S_term': True, 'S_gv': True, 'S_comperr': False}
 PARSES_OK = {'D1': True, 'D2': True, 'D_bad': False}
 MAX_HANDLES = 2
